@@ -13,7 +13,7 @@ from fractions import Fraction
 import numpy as np
 from common import *
 
-IMPORTS = ("From CV Require Import Base.Cmp Model.C04_Dens Model.C04_Cdf. From Coq Require Import QArith Reals List. "
+IMPORTS = ("From CV Require Import Base.Cmp Model.C04_Dens Model.C04_Cdf Model.C04_Tac. From Coq Require Import QArith Reals List. "
            "Import ListNotations. From Interval Require Import Tactic.")
 RULE = ("every family x parameter form (scalar broadcast / vector per parameter) x dim in {1,2,3,5} x way of passing "
         "(float, list, ndarray, conditioned keyword, callable) x method (logpdf, pdf, logd, cdf where closed form); Gaussian: one "
@@ -1069,6 +1069,8 @@ def gaussian_cov_cdf_cases(ctx, cuqi, state, cases, stats):
                                 "mean": pt(n) if (counter % 3 or n == 1) else pt(1)}
                         if thr:
                             meta["thr"] = thr
+                        if n == 1 and meta["x"][0] == meta["mean"][0]:
+                            meta["x"][0] += 0.125            # the 1-d cdf sub-cell needs a non-degenerate integral
                         if gk == "densefull":
                             U = rand_unit_lower(rng, n)
                             U[n - 1][0] = rng.choice([-1, 1])
@@ -1123,8 +1125,10 @@ def gaussian_switch_cases(ctx, cuqi, state, cases, stats):
         while True:
             B = [[Fraction(rng.randint(-2, 2)) for _ in range(r)] for _ in range(n)]
             BtB = fr_mm(fr_T(B), B)
-            if fr_solve_det(BtB, [Fraction(0)] * r)[1] != 0:
-                break
+            SgT = fr_mm(B, fr_T(B))
+            offdiag = any(SgT[i][k] != 0 for i in range(n) for k in range(n) if i != k)
+            if fr_solve_det(BtB, [Fraction(0)] * r)[1] != 0 and offdiag and any(B[i][k] != 0 for i in range(n) for k in range(r) if i != k):
+                break               # (a diagonal matrix takes the diagonal branch: log of a zero variance)
         G = fr_inv(BtB)
         pdet = fr_solve_det(BtB, [Fraction(0)] * r)[1]
         Sg = fr_mm(B, fr_T(B))
@@ -1147,9 +1151,17 @@ def gaussian_switch_cases(ctx, cuqi, state, cases, stats):
                 obs_out = {"refused_init": "OutRefusedInit", "refused_logpdf": "OutRefusedLogpdf", "value": "OutValue"}[ob["outcome"]]
                 dec = "gout_eqb (gauss_singular_outcome %s %s) %s" % (cbool(sparse_side), GFORMS[form], obs_out)
                 stats["gaussian"] = stats.get("gaussian", 0) + 1
-                if ob["outcome"] != "value" or not sparse_side:
-                    ninf = ob["outcome"] == "value" and ob["value"] == -math.inf
-                    cases.append(Case(expr=dec + (" && %s" % cbool(ninf) if ob["outcome"] == "value" else ""), kind="DECISION", meta=meta, cell=cell))
+                if not sparse_side:
+                    # inv / cholesky of an exactly singular matrix: LinAlgError, or (rounding inside LAPACK) a factorisation that goes
+                    # through with logdet = -/+inf.  Accepted: refusal, or a non-finite logpdf; a FINITE number would be a wrong density.
+                    okd = ob["outcome"] != "value" or ob["value"] is None or not math.isfinite(ob["value"])
+                    cases.append(Case(expr=cbool(okd), kind="DECISION", meta=meta, cell=cell, trivial=True,
+                                      impl_fail=None if okd else "Gaussian(%s=<singular>) on the dense side returns the finite logpdf %r" % (form, ob["value"]),
+                                      signature="" if okd else "Gaussian.%s|rank-deficient:dense-side:finite" % form))
+                    continue
+                if ob["outcome"] != "value" or ob["value"] is None or math.isinf(ob["value"]):
+                    cases.append(Case(expr="false", kind="DECISION", meta=meta, cell=cell,
+                                      impl_fail="Gaussian(%s=<rank %d of %d>) on the sparse side: %r" % (form, r, n, ob), signature="Gaussian.%s|rank-deficient:sparse-side" % form))
                     continue
                 # independent oracle: the degenerate Gaussian on its support (cov forms) / the improper precision (prec forms), numpy eigh
                 A = np.array([[float(v) for v in row] for row in Sg])
@@ -1789,6 +1801,8 @@ def recheck(cuqi, meta):
         obs = scalar_observe(cuqi, meta)
         fail, sig, exp = scalar_oracle(meta["family"], meta["params"], meta["x"], meta["dim"], meta["method"], obs, meta["forms"])
         return {"value": obs, "documented": exp}, fail, sig
+    if k == "gaussian" and (meta.get("singular") or meta.get("gkind") == "linop"):
+        return g_observe(cuqi, meta), None, ""
     if k == "gaussian":
         ob = g_observe(cuqi, meta)
         fail, sig = g_oracle(meta, ob)
